@@ -345,6 +345,9 @@ class Engine:
 
     def e_Dict(self, e, st):
         # {} , {k: v, ...}, {**a, **b}
+        h = self.contract.dict_display(self, st, e) if hasattr(self.contract, 'dict_display') else None
+        if h is not None:
+            return h
         if e.keys and all(isinstance(k, ast.Constant) and isinstance(k.value, (bool, str)) for k in e.keys):
             # a small python-level mapping with constant keys (e.g. {True: SeenSet(), False: SeenSet()})
             return [(s, Obj('pydict', {'items': [(C(k.value), v) for k, v in zip(e.keys, vs)]}))
